@@ -552,24 +552,70 @@ pub fn gen_backoff(rng: &mut Rng, wide: bool) -> BackoffCfg {
     BackoffCfg { strategy, step_ms, max_attempts, max_ms }
 }
 
-pub fn gen_c12(rng: &mut Rng) -> RcScript {
-    let kind = *rng.pick(&[Kind::Publisher, Kind::Subscriber, Kind::Requestor, Kind::Replier]);
-    let backoff = gen_backoff(rng, false);
-    let n_out = if rng.chance(1, 3) { backoff.max_attempts as usize + rng.usize(1, 3) } else { rng.usize(1, 3) };
-    let outages = (0..n_out.min(9))
-        .map(|_| {
-            let fault = match rng.below(10) {
-                0..=3 => Fault::Close,
-                4..=7 => Fault::Partition { failed: rng.below(backoff.max_attempts as u64 + 2) as u32 },
-                _ => Fault::Restart { down_ms: *rng.pick(&[100u64, 2_000, 8_000]) },
-            };
-            Outage { fault, quiet_ms_before: *rng.pick(&[0u64, 300, 1_000, 2_500]) }
-        })
-        .collect();
-    let mut outages: Vec<Outage> = outages;
-    if backoff.max_attempts >= 1 && rng.chance(1, 6) {
-        // INVALID_TOPIC_NAME (4), CLOUD_AUTH_FAILED (6), an unknown code: anything but the bind error
-        outages.push(Outage { fault: Fault::Impostor { code: *rng.pick(&[4u32, 6, 0, 77]) }, quiet_ms_before: 500 });
+/// The enumerated part of a C12 script: which stream kind is cut, by which class of fault, and how
+/// many outages follow each other. Everything else (backoff configuration, quiet periods, network)
+/// is drawn from the seed.
+#[derive(Clone, Copy, Debug, PartialEq)]
+pub enum FaultClass {
+    Close,
+    PartitionRecovering,
+    PartitionExhausting,
+    RestartShort,
+    RestartLong,
+    Impostor,
+}
+#[derive(Clone, Copy, Debug, PartialEq)]
+pub enum Repeat {
+    Once,
+    Few,
+    BeyondBudget,
+}
+
+pub fn c12_points() -> Vec<(Kind, FaultClass, Repeat)> {
+    let mut v = vec![];
+    for k in [Kind::Publisher, Kind::Subscriber, Kind::Requestor, Kind::Replier] {
+        for f in [FaultClass::Close, FaultClass::PartitionRecovering, FaultClass::PartitionExhausting, FaultClass::RestartShort, FaultClass::RestartLong, FaultClass::Impostor] {
+            for r in [Repeat::Once, Repeat::Few, Repeat::BeyondBudget] {
+                v.push((k, f, r));
+            }
+        }
+    }
+    v
+}
+
+pub fn gen_c12(rng: &mut Rng, index: u64) -> RcScript {
+    let pts = c12_points();
+    let (kind, class, repeat) = pts[(index % pts.len() as u64) as usize];
+    let mut backoff = gen_backoff(rng, false);
+    if class == FaultClass::Impostor && backoff.max_attempts == 0 {
+        backoff.max_attempts = 1;
+    }
+    let n_out = match repeat {
+        Repeat::Once => 1,
+        Repeat::Few => rng.usize(2, 3),
+        Repeat::BeyondBudget => (backoff.max_attempts as usize + rng.usize(1, 3)).min(9),
+    };
+    let mut mk = |rng: &mut Rng, class: FaultClass| -> Fault {
+        match class {
+            FaultClass::Close => Fault::Close,
+            FaultClass::PartitionRecovering => Fault::Partition { failed: rng.below(backoff.max_attempts.max(1) as u64) as u32 },
+            FaultClass::PartitionExhausting => Fault::Partition { failed: backoff.max_attempts + rng.below(2) as u32 },
+            FaultClass::RestartShort => Fault::Restart { down_ms: *rng.pick(&[100u64, 2_000]) },
+            FaultClass::RestartLong => Fault::Restart { down_ms: 8_000 },
+            FaultClass::Impostor => Fault::Impostor { code: *rng.pick(&[4u32, 6, 0, 77]) },
+        }
+    };
+    let mut outages = vec![];
+    for i in 0..n_out {
+        let last = i + 1 == n_out;
+        // the enumerated class is the last outage; earlier ones are survivable faults of seeded kinds
+        let fault = if last {
+            mk(rng, class)
+        } else {
+            let c = *rng.pick(&[FaultClass::Close, FaultClass::Close, FaultClass::PartitionRecovering, FaultClass::RestartShort]);
+            mk(rng, c)
+        };
+        outages.push(Outage { fault, quiet_ms_before: *rng.pick(&[0u64, 300, 1_000, 2_500]) });
     }
     RcScript { net: NetCfg { seed: rng.next(), loss_ppm: *rng.pick(&[0u32, 0, 10_000]), dup_ppm: 0, min_delay_ms: rng.range(1, 10) as u32, jitter_ms: *rng.pick(&[0u32, 5]) }, rt_seed: rng.next(), kind, backoff, outages, timing_only: false }
 }
@@ -928,8 +974,8 @@ impl Family for ReconnectFamily {
     fn engine(&self) -> &'static str {
         "N"
     }
-    fn generate(&self, _p: &str, tier: Tier, _i: u64, _n: u64, rng: &mut Rng) -> Value {
-        let sc = if self.timing { gen_c13(rng, tier == Tier::Thorough) } else { gen_c12(rng) };
+    fn generate(&self, _p: &str, tier: Tier, index: u64, _n: u64, rng: &mut Rng) -> Value {
+        let sc = if self.timing { gen_c13(rng, tier == Tier::Thorough) } else { gen_c12(rng, index) };
         serde_json::to_value(sc).unwrap()
     }
     fn execute(&self, property: &str, body: &Value, opts: &ExecOpts) -> Outcome {
@@ -1005,5 +1051,15 @@ impl Family for ReconnectFamily {
     }
     fn watchdog_ms(&self) -> u64 {
         180_000
+    }
+    fn exhaustive_note(&self, _p: &str, tier: Tier) -> Option<String> {
+        if self.timing {
+            return None;
+        }
+        Some(format!(
+            "fault placements: {} points = stream kind {{publisher, subscriber, requestor, replier}} x fault class of the last outage {{close hook, partition healed within the budget, partition held beyond the budget, short restart, long restart, impostor server (unrecoverable error)}} x repetition {{1 outage, 2-3, more than max_attempts}}; every point under ~{} seeded backoff configurations / quiet periods / network schedules",
+            c12_points().len(),
+            if tier == Tier::Quick { 5 } else { 400 }
+        ))
     }
 }
